@@ -10,6 +10,10 @@ import (
 	"time"
 )
 
+// cmdWaitDelay bounds how long SafeCmdExecution waits, after the command's deadline has passed and the
+// command has been killed, for its output pipes to be closed
+const cmdWaitDelay = 200 * time.Millisecond
+
 func SafeCmdExecution(executable string, args []string, timeout time.Duration) (string, error) {
 	if _, err := CheckFilePermissionsForExecution(executable); err != nil {
 		return "", fmt.Errorf("cannot execute %s: %s", executable, err)
@@ -19,10 +23,15 @@ func SafeCmdExecution(executable string, args []string, timeout time.Duration) (
 	defer cancel()
 
 	cmd := exec.CommandContext(ctx, executable, args...)
+	// do not wait forever for descendants of the command that keep its output pipes open
+	cmd.WaitDelay = cmdWaitDelay
 	out, err := cmd.Output()
 
 	if ctx.Err() == context.DeadlineExceeded {
 		ui.Warning("Command timed out: %s", executable)
+		if err == nil {
+			err = ctx.Err()
+		}
 		return "", err
 	}
 
